@@ -6,6 +6,7 @@ import Driver.Deps
 import Driver.Finder
 import Driver.Discover
 import Driver.Attrs
+import Driver.Serve
 open Lean
 
 def dispatch (j : Json) : Except String Json := do
@@ -23,6 +24,7 @@ def dispatch (j : Json) : Except String Json := do
   | "parseattrs" => Driver.AttrsD.handleParse j
   | "slotesc" => Driver.AttrsD.handleSlot j
   | "guard" => Driver.AttrsD.handleGuard j
+  | "serve" => Driver.ServeD.handle j
   | "ping" => pure (Json.mkObj [("pong", Json.bool true)])
   | _ => throw s!"unknown op {op}"
 
